@@ -1,8 +1,13 @@
 ------------------------------ MODULE MiBitmap ------------------------------
-(* Draft: src/bitmap.c claim across fields with roll-back, at atomic-operation granularity.
-   A field is the set of its set bit positions 0..W-1 (bit W-1 is the most significant). *)
+(* src/bitmap.c: claim of `count` consecutive bits, inside one field or across fields with roll-back, at the granularity of the
+   atomic operations on the bitmap words (_mi_bitmap_try_find_from_claim_across -> per start field: first the in-field search
+   _mi_bitmap_try_find_claim_field when count <= W, then mi_bitmap_try_find_claim_field_across: leading zeros of the start word,
+   one load per following word, CAS on the initial word, CAS 0 -> FULL on intermediate words, CAS on the final word, roll-back,
+   <= 3 retries), _mi_bitmap_unclaim_across as one fetch_and per word, and the purge-style _mi_bitmap_try_claim / _mi_bitmap_unclaim.
+   A field is the set of its set bit positions 0..W-1 (bit W-1 is the most significant).  Pre-claimed left-over bits (Blocked)
+   model the unusable tail of an arena's last field. *)
 EXTENDS Naturals, FiniteSets, Sequences, TLC
-CONSTANTS W, F, Threads, Counts, MaxClaims
+CONSTANTS W, F, Threads, Counts, MaxClaims, Blocked, Purgers    \* Blocked: globally blocked bits; Purgers: threads that do try_claim/unclaim of free ranges
 Bits == 0..(W-1)
 Full == Bits
 Lo(n) == 0..(n-1)                       \* mask of the n low bits
@@ -14,11 +19,13 @@ Glob(f, S) == {f*W + b : b \in S}
 
 VARIABLES field,            \* [0..F-1 -> SUBSET Bits]
           owner,            \* ghost: global bit -> thread or "none"
-          pc, cnt, idx, retries, map, initial, found, cur, lastmask, bitidx, held, nclaims, mine
-vars == <<field,owner,pc,cnt,idx,retries,map,initial,found,cur,lastmask,bitidx,held,nclaims,mine>>
+          pc, cnt, idx, retries, map, initial, found, cur, lastmask, bitidx, held, nclaims, mine,
+          phase             \* "in" = in-field search of the current start field, "x" = across attempt of the same start field
+vars == <<field,owner,pc,cnt,idx,retries,map,initial,found,cur,lastmask,bitidx,held,nclaims,mine,phase>>
 
-Init == /\ field = [f \in 0..(F-1) |-> {}]
-        /\ owner = [g \in 0..(F*W-1) |-> "none"]
+Init == /\ field = [f \in 0..(F-1) |-> {b \in Bits : (f*W + b) \in Blocked}]
+        /\ owner = [g \in 0..(F*W-1) |-> IF g \in Blocked THEN "blocked" ELSE "none"]
+        /\ phase = [t \in Threads |-> "in"]
         /\ pc = [t \in Threads |-> "idle"] /\ cnt = [t \in Threads |-> 0] /\ idx = [t \in Threads |-> 0]
         /\ retries = [t \in Threads |-> 0] /\ map = [t \in Threads |-> {}] /\ initial = [t \in Threads |-> 0]
         /\ found = [t \in Threads |-> 0] /\ cur = [t \in Threads |-> 0] /\ lastmask = [t \in Threads |-> {}]
@@ -28,34 +35,43 @@ Init == /\ field = [f \in 0..(F-1) |-> {}]
 Set(v, t, x) == [v EXCEPT ![t] = x]
 
 \* ---- start a claim ----
-Start(t) == /\ pc[t] = "idle" /\ held[t] = {} /\ nclaims[t] < MaxClaims
+Start(t) == /\ t \notin Purgers /\ pc[t] = "idle" /\ held[t] = {} /\ nclaims[t] < MaxClaims
             /\ \E c \in Counts : cnt' = Set(cnt,t,c)
             /\ idx' = Set(idx,t,0) /\ retries' = Set(retries,t,0) /\ nclaims' = Set(nclaims,t,nclaims[t]+1)
-            /\ pc' = Set(pc,t,"a0") /\ mine' = Set(mine,t,{})
+            /\ pc' = Set(pc,t,"a0") /\ mine' = Set(mine,t,{}) /\ phase' = Set(phase,t,"in")
             /\ UNCHANGED <<field,owner,map,initial,found,cur,lastmask,bitidx,held>>
 
-NextIdx(t) == IF idx[t] + 1 < F
-              THEN /\ idx' = Set(idx,t,idx[t]+1) /\ retries' = Set(retries,t,0) /\ pc' = Set(pc,t,"a0")
-              ELSE /\ pc' = Set(pc,t,"failed") /\ UNCHANGED <<idx,retries>>
+NextIdx(t) == /\ phase' = Set(phase,t,"in")
+              /\ IF idx[t] + 1 < F
+                 THEN /\ idx' = Set(idx,t,idx[t]+1) /\ retries' = Set(retries,t,0) /\ pc' = Set(pc,t,"a0")
+                 ELSE /\ pc' = Set(pc,t,"failed") /\ UNCHANGED <<idx,retries>>
+\* the in-field search of this start field failed: counts > 2 go on with the across attempt of the same field
+InFieldFailed(t) == IF phase[t] = "in" /\ cnt[t] > 2
+                    THEN /\ phase' = Set(phase,t,"x") /\ pc' = Set(pc,t,"a0") /\ UNCHANGED <<idx,retries>>
+                    ELSE NextIdx(t)
 
 \* a0: load field[idx]; decide
 A0(t) == /\ pc[t] = "a0"
          /\ LET m == field[idx[t]] ini == Clz(m) IN
             /\ map' = Set(map,t,m) /\ initial' = Set(initial,t,ini)
-            /\ IF cnt[t] <= 2 \/ ini >= cnt[t]
-               THEN \* single-field search (_mi_bitmap_try_find_claim_field)
-                    IF m = Full THEN NextIdx(t) /\ UNCHANGED <<bitidx,found,cur>>
-                    ELSE /\ bitidx' = Set(bitidx,t,Ctz1(m)) /\ pc' = Set(pc,t,"s1") /\ UNCHANGED <<idx,retries,found,cur>>
-               ELSE IF ini = 0 \/ DivUp(cnt[t]-ini, W) >= F - idx[t]
+            /\ IF phase[t] = "in" /\ (cnt[t] <= 2 \/ cnt[t] <= W)
+               THEN \* in-field search (_mi_bitmap_try_find_claim_field)
+                    IF m = Full THEN InFieldFailed(t) /\ UNCHANGED <<bitidx,found,cur>>
+                    ELSE /\ bitidx' = Set(bitidx,t,Ctz1(m)) /\ pc' = Set(pc,t,"s1") /\ UNCHANGED <<idx,retries,found,cur,phase>>
+               ELSE \* across attempt (mi_bitmap_try_find_claim_field_across)
+                    IF ini = 0 THEN NextIdx(t) /\ UNCHANGED <<bitidx,found,cur>>
+                    ELSE IF ini >= cnt[t]
+                    THEN /\ bitidx' = Set(bitidx,t,Ctz1(m)) /\ pc' = Set(pc,t,"s1") /\ phase' = Set(phase,t,"x") /\ UNCHANGED <<idx,retries,found,cur>>
+                    ELSE IF DivUp(cnt[t]-ini, W) >= F - idx[t]
                     THEN NextIdx(t) /\ UNCHANGED <<bitidx,found,cur>>
-                    ELSE /\ found' = Set(found,t,ini) /\ cur' = Set(cur,t,idx[t]) /\ pc' = Set(pc,t,"scan")
+                    ELSE /\ found' = Set(found,t,ini) /\ cur' = Set(cur,t,idx[t]) /\ pc' = Set(pc,t,"scan") /\ phase' = Set(phase,t,"x")
                          /\ UNCHANGED <<idx,retries,bitidx>>
          /\ UNCHANGED <<field,owner,cnt,lastmask,held,nclaims,mine>>
 
 \* single field: scan/CAS loop with local copy `map`
 S1(t) == /\ pc[t] = "s1"
          /\ IF bitidx[t] > W - cnt[t]
-            THEN NextIdx(t) /\ UNCHANGED <<field,owner,map,bitidx,held,mine>>
+            THEN InFieldFailed(t) /\ UNCHANGED <<field,owner,map,bitidx,held,mine>>
             ELSE LET m == {bitidx[t] + i : i \in 0..(cnt[t]-1)} IN
                  IF map[t] \cap m = {}
                  THEN IF field[idx[t]] = map[t]                      \* strong CAS
@@ -63,11 +79,11 @@ S1(t) == /\ pc[t] = "s1"
                            /\ Assert(\A g \in Glob(idx[t],m) : owner[g] = "none", "double claim")
                            /\ owner' = [g \in DOMAIN owner |-> IF g \in Glob(idx[t],m) THEN t ELSE owner[g]]
                            /\ held' = Set(held,t,Glob(idx[t],m)) /\ pc' = Set(pc,t,"holding")
-                           /\ UNCHANGED <<map,bitidx,idx,retries,mine>>
-                      ELSE /\ map' = Set(map,t,field[idx[t]]) /\ UNCHANGED <<field,owner,bitidx,held,pc,idx,retries,mine>>
+                           /\ UNCHANGED <<map,bitidx,idx,retries,mine,phase>>
+                      ELSE /\ map' = Set(map,t,field[idx[t]]) /\ UNCHANGED <<field,owner,bitidx,held,pc,idx,retries,mine,phase>>
                  ELSE LET top == CHOOSE b \in (map[t] \cap m) : \A c \in (map[t] \cap m) : c <= b
                           shift == IF cnt[t] = 1 THEN 1 ELSE (top + 1) - bitidx[t] IN
-                      /\ bitidx' = Set(bitidx,t,bitidx[t]+shift) /\ UNCHANGED <<field,owner,map,held,pc,idx,retries,mine>>
+                      /\ bitidx' = Set(bitidx,t,bitidx[t]+shift) /\ UNCHANGED <<field,owner,map,held,pc,idx,retries,mine,phase>>
          /\ UNCHANGED <<cnt,initial,found,cur,lastmask,nclaims>>
 
 \* scan ahead: one load per following field
@@ -78,12 +94,12 @@ Scan(t) == /\ pc[t] = "scan"
               IF field[f] \cap mask # {}
               THEN NextIdx(t) /\ UNCHANGED <<found,cur,lastmask>>
               ELSE /\ cur' = Set(cur,t,f) /\ found' = Set(found,t,found[t]+bits) /\ lastmask' = Set(lastmask,t,mask)
-                   /\ pc' = Set(pc,t, IF found[t]+bits >= cnt[t] THEN "ci0" ELSE "scan") /\ UNCHANGED <<idx,retries>>
+                   /\ pc' = Set(pc,t, IF found[t]+bits >= cnt[t] THEN "ci0" ELSE "scan") /\ UNCHANGED <<idx,retries,phase>>
            /\ UNCHANGED <<field,owner,cnt,map,initial,bitidx,held,nclaims,mine>>
 
 \* claim initial field: load, then CAS loop
 Ci0(t) == /\ pc[t] = "ci0" /\ map' = Set(map,t,field[idx[t]]) /\ pc' = Set(pc,t,"ci1")
-          /\ UNCHANGED <<field,owner,cnt,idx,retries,initial,found,cur,lastmask,bitidx,held,nclaims,mine>>
+          /\ UNCHANGED <<field,owner,cnt,idx,retries,initial,found,cur,lastmask,bitidx,held,nclaims,mine,phase>>
 FinalField(t) == cur[t]       \* after the scan `cur` is the final field
 Ci1(t) == /\ pc[t] = "ci1"
           /\ LET im == Hi(initial[t]) IN
@@ -95,7 +111,7 @@ Ci1(t) == /\ pc[t] = "ci1"
                        /\ found' = Set(found,t,idx[t]+1)      \* reuse `found` as the field cursor for the mid claim
                        /\ pc' = Set(pc,t, IF idx[t]+1 < FinalField(t) THEN "cm" ELSE "cf0") /\ UNCHANGED map
                   ELSE /\ map' = Set(map,t,field[idx[t]]) /\ UNCHANGED <<field,pc,mine,found>>
-          /\ UNCHANGED <<owner,cnt,idx,retries,initial,cur,lastmask,bitidx,held,nclaims>>
+          /\ UNCHANGED <<owner,cnt,idx,retries,initial,cur,lastmask,bitidx,held,nclaims,phase>>
 
 \* intermediate fields: CAS 0 -> FULL
 Cm(t) == /\ pc[t] = "cm"
@@ -104,10 +120,10 @@ Cm(t) == /\ pc[t] = "cm"
             THEN /\ field' = [field EXCEPT ![f] = Full] /\ mine' = Set(mine,t, mine[t] \cup Glob(f,Full))
                  /\ found' = Set(found,t,f+1) /\ pc' = Set(pc,t, IF f+1 < FinalField(t) THEN "cm" ELSE "cf0")
             ELSE /\ pc' = Set(pc,t,"rb") /\ UNCHANGED <<field,mine,found>>     \* failed on field f: roll back f-1 .. idx
-         /\ UNCHANGED <<owner,cnt,idx,retries,map,initial,cur,lastmask,bitidx,held,nclaims>>
+         /\ UNCHANGED <<owner,cnt,idx,retries,map,initial,cur,lastmask,bitidx,held,nclaims,phase>>
 
 Cf0(t) == /\ pc[t] = "cf0" /\ map' = Set(map,t,field[FinalField(t)]) /\ pc' = Set(pc,t,"cf1")
-          /\ UNCHANGED <<field,owner,cnt,idx,retries,initial,found,cur,lastmask,bitidx,held,nclaims,mine>>
+          /\ UNCHANGED <<field,owner,cnt,idx,retries,initial,found,cur,lastmask,bitidx,held,nclaims,mine,phase>>
 Cf1(t) == /\ pc[t] = "cf1"
           /\ LET f == FinalField(t) fm == lastmask[t] IN
              IF map[t] \cap fm # {}
@@ -121,7 +137,7 @@ Cf1(t) == /\ pc[t] = "cf1"
                        /\ held' = Set(held,t,all) /\ mine' = Set(mine,t,{}) /\ pc' = Set(pc,t,"holding")
                        /\ UNCHANGED <<map,found>>
                   ELSE /\ map' = Set(map,t,field[f]) /\ UNCHANGED <<field,pc,mine,owner,held,found>>
-          /\ UNCHANGED <<cnt,idx,retries,initial,cur,lastmask,bitidx,nclaims>>
+          /\ UNCHANGED <<cnt,idx,retries,initial,cur,lastmask,bitidx,nclaims,phase>>
 
 \* roll back: `found` = field we failed on; clear found-1 down to idx+1 by plain store, then the initial mask by CAS loop
 Rb(t) == /\ pc[t] = "rb"
@@ -130,23 +146,23 @@ Rb(t) == /\ pc[t] = "rb"
             THEN /\ field' = [field EXCEPT ![f] = {}] /\ mine' = Set(mine,t, mine[t] \ Glob(f,Full))
                  /\ found' = Set(found,t,f) /\ UNCHANGED <<pc,map>>
             ELSE /\ map' = Set(map,t,field[idx[t]]) /\ pc' = Set(pc,t,"rb_i") /\ UNCHANGED <<field,mine,found>>
-         /\ UNCHANGED <<owner,cnt,idx,retries,initial,cur,lastmask,bitidx,held,nclaims>>
+         /\ UNCHANGED <<owner,cnt,idx,retries,initial,cur,lastmask,bitidx,held,nclaims,phase>>
 RbI(t) == /\ pc[t] = "rb_i"
           /\ LET im == Hi(initial[t]) IN
              IF field[idx[t]] = map[t]
              THEN /\ field' = [field EXCEPT ![idx[t]] = map[t] \ im] /\ mine' = Set(mine,t, mine[t] \ Glob(idx[t],im))
                   /\ pc' = Set(pc,t,"rb_done") /\ UNCHANGED map
              ELSE /\ map' = Set(map,t,field[idx[t]]) /\ UNCHANGED <<field,mine,pc>>
-          /\ UNCHANGED <<owner,cnt,idx,retries,initial,found,cur,lastmask,bitidx,held,nclaims>>
+          /\ UNCHANGED <<owner,cnt,idx,retries,initial,found,cur,lastmask,bitidx,held,nclaims,phase>>
 RbDone(t) == /\ pc[t] = "rb_done"
              /\ Assert(mine[t] = {}, "roll-back left bits behind")
              /\ IF retries[t] <= 2
-                THEN /\ retries' = Set(retries,t,retries[t]+1) /\ pc' = Set(pc,t,"a0") /\ UNCHANGED idx
+                THEN /\ retries' = Set(retries,t,retries[t]+1) /\ pc' = Set(pc,t,"a0") /\ UNCHANGED <<idx,phase>>
                 ELSE NextIdx(t)
              /\ UNCHANGED <<field,owner,cnt,map,initial,found,cur,lastmask,bitidx,held,nclaims,mine>>
 
 Failed(t) == /\ pc[t] = "failed" /\ Assert(mine[t] = {}, "failed claim left bits") /\ pc' = Set(pc,t,"idle")
-             /\ UNCHANGED <<field,owner,cnt,idx,retries,map,initial,found,cur,lastmask,bitidx,held,nclaims,mine>>
+             /\ UNCHANGED <<field,owner,cnt,idx,retries,map,initial,found,cur,lastmask,bitidx,held,nclaims,mine,phase>>
 
 \* unclaim_across: one fetch_and per field, lowest field first
 Unclaim(t) == /\ pc[t] = "holding" /\ held[t] # {}
@@ -158,9 +174,23 @@ Unclaim(t) == /\ pc[t] = "holding" /\ held[t] # {}
                  /\ owner' = [g \in DOMAIN owner |-> IF g \in part THEN "none" ELSE owner[g]]
                  /\ held' = Set(held,t,held[t] \ part)
                  /\ pc' = Set(pc,t, IF held[t] \ part = {} THEN "idle" ELSE "holding")
-              /\ UNCHANGED <<cnt,idx,retries,map,initial,found,cur,lastmask,bitidx,nclaims,mine>>
+              /\ UNCHANGED <<cnt,idx,retries,map,initial,found,cur,lastmask,bitidx,nclaims,mine,phase>>
 
-Step(t) == Start(t) \/ A0(t) \/ S1(t) \/ Scan(t) \/ Ci0(t) \/ Ci1(t) \/ Cm(t) \/ Cf0(t) \/ Cf1(t)
+\* _mi_bitmap_try_claim (arena purge): claim a given range inside one field only if it is entirely free (one CAS loop = one step)
+TryClaim(t) == /\ t \in Purgers /\ pc[t] = "idle" /\ held[t] = {} /\ nclaims[t] < MaxClaims
+               /\ \E f \in 0..(F-1), lo \in Bits, n \in 1..2 :
+                     /\ lo + n <= W
+                     /\ LET m == {lo + i : i \in 0..(n-1)} IN
+                          IF field[f] \cap m = {}
+                          THEN /\ field' = [field EXCEPT ![f] = field[f] \cup m]
+                               /\ Assert(\A g \in Glob(f,m) : owner[g] = "none", "try_claim took an owned bit")
+                               /\ owner' = [g \in DOMAIN owner |-> IF g \in Glob(f,m) THEN t ELSE owner[g]]
+                               /\ held' = Set(held,t,Glob(f,m)) /\ pc' = Set(pc,t,"holding")
+                          ELSE UNCHANGED <<field,owner,held,pc>>
+               /\ nclaims' = Set(nclaims,t,nclaims[t]+1)
+               /\ UNCHANGED <<cnt,idx,retries,map,initial,found,cur,lastmask,bitidx,mine,phase>>
+
+Step(t) == TryClaim(t) \/ Start(t) \/ A0(t) \/ S1(t) \/ Scan(t) \/ Ci0(t) \/ Ci1(t) \/ Cm(t) \/ Cf0(t) \/ Cf1(t)
            \/ Rb(t) \/ RbI(t) \/ RbDone(t) \/ Failed(t) \/ Unclaim(t)
 Next == \E t \in Threads : Step(t)
 Spec == Init /\ [][Next]_vars
@@ -169,5 +199,8 @@ Spec == Init /\ [][Next]_vars
 BitsAccounted == \A f \in 0..(F-1) : \A b \in field[f] :
                     LET g == f*W + b IN owner[g] # "none" \/ \E t \in Threads : g \in mine[t]
 OwnedBitsSet == \A g \in DOMAIN owner : owner[g] # "none" => (g % W) \in field[g \div W]
-AllFreeAtEnd == (\A t \in Threads : pc[t] = "idle" /\ held[t] = {}) => \A f \in 0..(F-1) : field[f] = {}
+AllFreeAtEnd == (\A t \in Threads : pc[t] = "idle" /\ held[t] = {}) => \A f \in 0..(F-1) : field[f] = {b \in Bits : (f*W + b) \in Blocked}
+\* C14 "after everything has been freed the arena can again be allocated completely" is AllFreeAtEnd; "a request that fails or rolls back
+\* leaves nothing reserved" is the assertion in Failed/RbDone (mine = {}) together with BitsAccounted.
+BlockedStay == \A g \in Blocked : (g % W) \in field[g \div W] /\ owner[g] = "blocked"
 =============================================================================
